@@ -6,6 +6,7 @@ import (
 	"flag"
 	"fmt"
 	"io"
+	"net"
 	"os"
 	"strings"
 
@@ -59,9 +60,16 @@ var portNext = 0
 func newWorld(c caseCfg, careful bool) (*world, error) {
 	var s *stack.Stack
 	var err error
-	for try := 0; try < 50; try++ {
+	for try := 0; try < 200; try++ {
 		port := portBase + portNext
 		portNext++
+		// the sandbox panics if it cannot listen: probe first (another check may run concurrently)
+		if ln, lerr := net.Listen("tcp", fmt.Sprintf("127.0.0.1:%d", port)); lerr != nil {
+			err = lerr
+			continue
+		} else {
+			ln.Close()
+		}
 		s, err = stack.New(stack.Config{Port: port, ExtFiles: c.exts, ExtDirs: c.dirs, TimeoutMs: int64(c.timeout), Snapshot: c.snapshot})
 		if err == nil {
 			break
